@@ -1,6 +1,7 @@
 import WalrusVerif.Model.Hex
 import WalrusVerif.Model.Sanitize
 import WalrusVerif.Model.WalKey
+import WalrusVerif.Model.Meta
 /-!
 `wdriver`: line-protocol driver.  One request per line on stdin, one reply per line on stdout.
 It runs the very definitions the theorems in `WalrusVerif/Props` are about.
@@ -26,19 +27,75 @@ def handlePure (toks : List String) : Option String :=
     | none => some "bad-op"
   | _ => none
 
-def step (line : String) : String :=
+/-! ### metadata state machine (C18, C20) -/
+
+structure DState where
+  md : Meta.ClusterState := Meta.ClusterState.init
+
+def replyStr : Meta.Reply → String
+  | .exists_ => "EXISTS" | .created => "CREATED" | .rolled => "ROLLED" | .node => "NODE"
+  | .errNotFound => "ERR:notfound" | .errOverflow => "ERR:overflow" | .errDecode => "ERR:decode"
+
+def sortPairs (l : List (Nat × Nat)) : List (Nat × Nat) :=
+  (l.toArray.qsort (fun a b => a.1 < b.1)).toList
+
+def fmtPairs (l : List (Nat × Nat)) : String :=
+  ",".intercalate ((sortPairs l).map fun (k, v) => s!"{k}:{v}")
+
+def fmtTopic : Option Meta.TopicState → String
+  | none => "none"
+  | some t => s!"cur={t.currentSegment} leader={t.leaderNode} off={t.lastSealedEntryOffset} sealed=[{fmtPairs t.sealedSegments}] leaders=[{fmtPairs t.segmentLeaders}]"
+
+def handleMeta (st : DState) (toks : List String) : Option (DState × String) :=
+  match toks with
+  | ["meta", "reset"] => some ({ st with md := Meta.ClusterState.init }, "ok")
+  | ["meta", "create", n, l] =>
+    match Hex.decodeStr n, l.toNat? with
+    | some name, some leader =>
+      let (m, r) := Meta.applyCmd st.md (.createTopic name leader)
+      some ({ st with md := m }, replyStr r)
+    | _, _ => some (st, "bad-op")
+  | ["meta", "roll", n, l, c] =>
+    match Hex.decodeStr n, l.toNat?, c.toNat? with
+    | some name, some leader, some cnt =>
+      let (m, r) := Meta.applyCmd st.md (.rolloverTopic name leader cnt)
+      some ({ st with md := m }, replyStr r)
+    | _, _, _ => some (st, "bad-op")
+  | ["meta", "upsert", i, a] =>
+    match i.toNat?, Hex.decodeStr a with
+    | some id, some addr =>
+      let (m, r) := Meta.applyCmd st.md (.upsertNode id addr)
+      some ({ st with md := m }, replyStr r)
+    | _, _ => some (st, "bad-op")
+  | ["meta", "bytes", b] =>
+    match (if b = "-" then some [] else Hex.decodeBytes b.toList) with
+    | some bs =>
+      let (m, r) := Meta.applyBytes st.md bs
+      some ({ st with md := m }, replyStr r)
+    | none => some (st, "bad-op")
+  | ["meta", "state", n] =>
+    match Hex.decodeStr n with
+    | some name => some (st, fmtTopic (st.md.topics.get? name))
+    | none => some (st, "bad-op")
+  | _ => none
+
+def step (st : DState) (line : String) : DState × String :=
   let toks := (line.trimAscii.toString.splitOn " ").filter (· ≠ "")
   match handlePure toks with
-  | some r => r
-  | none => "bad-op"
+  | some r => (st, r)
+  | none =>
+    match handleMeta st toks with
+    | some r => r
+    | none => (st, "bad-op")
 
-partial def loop (h : IO.FS.Stream) (out : IO.FS.Stream) : IO Unit := do
+partial def loop (h : IO.FS.Stream) (out : IO.FS.Stream) (st : DState) : IO Unit := do
   let line ← h.getLine
   if line.isEmpty then return ()
-  out.putStrLn (step line)
-  loop h out
+  let (st', r) := step st line
+  out.putStrLn r
+  loop h out st'
 
 def main : IO Unit := do
   let out ← IO.getStdout
-  loop (← IO.getStdin) out
+  loop (← IO.getStdin) out {}
   out.flush
